@@ -45,7 +45,8 @@ MC_BASE = {"Peers": {"p1", "p2", "p3"}, "Qs": {1}, "Kinds": set(ALLK), "Quorums"
 MC_INV = ["SPECIFICATION Spec", "INVARIANTS MonOK QuiesceOK OwedCovered Shape", "CHECK_DEADLOCK FALSE"]
 MC_STRICT = ["SPECIFICATION Spec", "INVARIANTS MonStrict QuiesceStrict OwedStrict Shape", "CHECK_DEADLOCK FALSE"]
 MUTS = ["dialfail_no_report", "closed_no_report", "exfail_no_report", "assume_without_send", "double_terminal",
-        "quorum_off_by_one", "hdial_dropped", "limit_reject_silent", "ctx_gone_no_report"]
+        "quorum_off_by_one", "hdial_dropped", "limit_reject_silent", "ctx_gone_no_report",
+        "est_open_err_send_failure_only"]
 
 
 def mc_runs(ctx):
@@ -197,6 +198,8 @@ def family(name):
         return "pair:" + name.split("-")[1]
     if name.startswith("killed-after-request-"):
         return "killed-after-request"
+    if name.startswith("dropafterconnect-"):
+        return "dropafterconnect"
     return "single:" + name
 
 
@@ -303,6 +306,7 @@ def base_scenarios(ctx, pl, seed):
             S.append(mk("random-%d" % i, nodes, ops, warm=rnd.random() < 0.4, seq=rnd.random() < 0.2,
                         after_drop_ms=rnd.choice([0, 300])))
     S += pair_scenarios(ctx, rnd)
+    S += est_scenarios(ctx, rnd)
     return S
 
 
@@ -329,6 +333,8 @@ def scenarios(ctx, pl=()):
                 n = 4
             elif fam == "killed-after-request":
                 n = 6
+            elif fam == "dropafterconnect":
+                n = 5
             elif fam == "direct":          # the two silent placements of the quick tier: one per transport
                 n = 1
             else:
@@ -381,6 +387,31 @@ def pair_scenarios(ctx, rnd):
             nodes = [f] if k % 2 else [dict(H), f]
             o = op(kind) if kind != "put_to" else {"kind": "put_to", "quorum": "all", "targets": [len(nodes)]}
             out.append(mk("killed-after-request-%s-%d" % (kind, r), nodes, [o]))
+    return out
+
+
+def est_scenarios(ctx, rnd):
+    """The open-substream error branch of on_connection_established.  burst: more operations wait for the dial of
+    one peer than the connection's command channel holds (256) - the peer is reached through a proxy of the harness
+    that holds the connection until all operations are issued, so the excess deterministically gets ChannelClogged.
+    dropafterconnect: the remote forcibly closes the connection as soon as it is established (timing decides what
+    the local node sees first); it is the only / last target of every lookup kind."""
+    def op(k):
+        return {"kind": k, "quorum": "one"} if k in ("put", "provide") else {"kind": k}
+    out = []
+    g = {"role": "kad", "known": True, "learn": True, "gated": True, "fault": "gated-burst"}
+    for v, nodes in enumerate(([dict(g)], [dict(H), dict(g)])[: (1 if ctx.quick() else 2)]):
+        out.append(mk("burst-%d" % v, nodes, [op(LOOKUPS[n % 5]) for n in range(300)]))
+    d = {"role": "dropafterconnect", "known": True, "learn": True, "fault": "dropafterconnect"}
+    k = 0
+    for kind in LOOKUPS:
+        for r in range(2 if ctx.quick() else 6):
+            k += 1
+            nodes = [dict(d)] if k % 2 else [dict(H), dict(d)]
+            out.append(mk("dropafterconnect-%s-%d" % (kind, r), nodes, [op(kind)], jitter_ms=(400 if r % 2 else 0)))
+    # all lookup kinds at once, the closing peer behind the gate (its connection is established after everything waits)
+    for r in range(1 if ctx.quick() else 3):
+        out.append(mk("dropafterconnect-gated-%d" % r, [dict(H), dict(d, gated=True)], [op(x) for x in LOOKUPS] * 2, jitter_ms=400))
     return out
 
 
@@ -506,7 +537,7 @@ def classify(seg, reason, scen, diag):
                             "connection limit (%s) and no DialFailure reached Kademlia" % (o["kind"], scen.get("limit"))))
             elif o["kind"] in PUTK and local.get("kad_est_open_substream_err"):
                 out.append(("est-open-substream-err-unreported", "%s never got a terminal event: on_connection_established could not open "
-                            "the substream of a pending PUT_VALUE / ADD_PROVIDER action and reported nothing" % o["kind"]))
+                            "the substream of an action that waited for the dial and the owning query was not told" % o["kind"]))
             else:
                 out.append(("silence-%s-%s" % (o["kind"], "+".join(roles) or "healthy"),
                             "%s (quorum %s) never got a terminal event within the deadline; fault roles %s; call-site markers %s"
@@ -579,6 +610,13 @@ def coverage(scen, diags, lines, mc, summ, nseg, nev):
             outcomes[res] = outcomes.get(res, 0) + 1
             bt["operations"] += 1
             bt["outcomes"][res] = bt["outcomes"].get(res, 0) + 1
+    est_hits = {}
+    for s in scen:
+        d = diags.get(s["id"])
+        if d and not d.get("discarded"):
+            n = len(d.get("markers", {}).get("0", {}).get("kad_est_open_substream_err", []))
+            if n:
+                est_hits[s.get("transport", "tcp")] = est_hits.get(s.get("transport", "tcp"), 0) + n
     alive_fail = []
     for s in scen:
         d = diags.get(s["id"])
@@ -619,6 +657,8 @@ def coverage(scen, diags, lines, mc, summ, nseg, nev):
         "operation_kinds_exercised": kinds,
         "operation_outcomes": outcomes,
         "by_transport": bytr,
+        # pending actions whose substream could not be opened when the dialed connection was established
+        "est_open_substream_error_branch_hits": est_hits,
         # not a rule of the property (a failure is a legal terminal event), recorded as an observation only
         "not_ok_although_every_node_alive_and_reachable": {"count": len(alive_fail), "examples": alive_fail[:5]},
         "impl_divergences": 0,
@@ -638,12 +678,16 @@ def check(ctx):
     cov = coverage(scen, diags, lines, mc, summ, nseg, nev)
     cov["generation"] = gstats
     cov["placements_from_tlc"] = sum(1 for x in scen if x["name"].startswith("tlc-"))
-    missing = ["%s@%s" % (f, tr) for tr in TRANSPORTS for f in list(FAULTS) + ["limit-reached", "limit-racing", "inbound-only", "dieonreq"]
+    missing = ["%s@%s" % (f, tr) for tr in TRANSPORTS for f in list(FAULTS) + ["limit-reached", "limit-racing", "inbound-only", "dieonreq", "dropafterconnect", "gated-burst"]
                if not cov["by_transport"].get(tr, {}).get("fault_roles", {}).get(f) and not (f == "silentput" and ctx.quick())]
     missing += [f for f in FAULTS if not cov["fault_roles_exercised"].get(f)]
+    missing += ["est-open-substream-error-branch@%s" % tr for tr in TRANSPORTS if not cov["est_open_substream_error_branch_hits"].get(tr)]
     missing += [k for k in ALLK if not cov["operation_kinds_exercised"].get(k)]
-    if missing:
+    # a coverage gap is a tool error only when nothing was found: a defect that removes a path must be reported as such
+    if missing and all(v["sig"] in load_known("C16") for v in violations):
         raise ToolError("coverage: fault roles / operation kinds never exercised: %s" % missing)
+    if missing:
+        ctx.notes.append("not exercised in this run (see the violations): %s" % missing)
     return conclude(ctx, "model_checking", cov, violations, ASSUME)
 
 
